@@ -407,6 +407,11 @@ func judge(c *caseData) verdict {
 		return v
 	}
 
+	if u := lostInFinally(r1.log); u != "" {
+		v.sig = "lost-panic:pending-failure-lost-in-finally"
+		v.what = fmt.Sprintf("the statements after a try/finally ran (%q logged) although its try body did not complete (%q missing): the failure that was pending while the finally block ran a nested try statement was neither delivered to a handler nor returned\nresult=%s\nlog=%v\n%s", "@after:"+u, "@done:"+u, r1, r1.log, describe(c))
+		return v
+	}
 	if !c.valueOK(r1) {
 		v.sig = "lost-panic:value-not-from-script"
 		v.what = fmt.Sprintf("VM.Run returned %s, a value no return statement of the script can produce (want %s): the run ended without the error being delivered to a handler or returned\nlog=%v\n%s", r1, c.WantValue, r1.log, describe(c))
@@ -481,6 +486,24 @@ func trimStack(s string) string {
 		lines = append(lines[:60], "...")
 	}
 	return strings.Join(lines, "\n")
+}
+
+// lostInFinally: "@after:U" logged without "@done:U" (see placement pending-through-finally-with-nested-try).
+func lostInFinally(log []string) string {
+	done := map[string]bool{}
+	for _, s := range log {
+		if i := strings.Index(s, "@done:"); i >= 0 {
+			done[strings.Trim(s[i+6:], "\"")] = true
+		}
+	}
+	for _, s := range log {
+		if i := strings.Index(s, "@after:"); i >= 0 {
+			if u := strings.Trim(s[i+7:], "\""); !done[u] {
+				return u
+			}
+		}
+	}
+	return ""
 }
 
 // nontrivial: the run raised at least one runtime error or Go panic.
